@@ -8,7 +8,7 @@ import (
 	"net/http"
 	"net/http/httptest"
 	"net/url"
-		"strings"
+	"strings"
 	"testing"
 
 	"github.com/ipfs/boxo/gateway"
@@ -427,6 +427,21 @@ func gen(t *rapid.T) Case {
 			c.Site = site
 		}
 	}
+	// a website path whose first segment merely starts with the name of a gateway path ("/ipfs-docs/x",
+	// "/ipfs.html", "/ipnsfoo", "/version2"): that is site content, not a path under the "/ipfs" prefix
+	if c.Kind == "dnslink-host" && rapid.IntRange(0, 2).Draw(t, "nearprefix") == 0 {
+		paths := c.Paths
+		if c.Site != nil && len(c.Site.Paths) > 0 {
+			paths = c.Site.Paths
+		}
+		base := strings.Trim(rapid.SampledFrom(paths).Draw(t, "nearprefix_of"), "/")
+		seg := base + rapid.SampledFrom([]string{"-docs", "foo", ".html", "2", "_", "~", "%2F", " x", "ü"}).Draw(t, "nearprefix_suffix")
+		if c.Rem == "" {
+			c.Rem = seg
+		} else {
+			c.Rem = seg + "/" + c.Rem
+		}
+	}
 	return c
 }
 
@@ -670,6 +685,14 @@ func run(c Case) kit.Result {
 	if c.Site != nil {
 		if siteKnown {
 			classes = append(classes, "site:known-gateway")
+			if !siteCovered {
+				for _, p := range c.Site.Paths {
+					if strings.HasPrefix(reqPath, strings.TrimSuffix(p, "/")) {
+						classes = append(classes, "site:path-near-gateway-prefix")
+						break
+					}
+				}
+			}
 		} else {
 			classes = append(classes, "site:key-not-matching")
 		}
@@ -727,11 +750,37 @@ func run(c Case) kit.Result {
 
 	// ---- the path handed to the next handler must name the same content
 	if rec.path == origPath && redirects == 0 {
-		// passed through unchanged (old-school gateway behaviour): trivially the same path
+		// passed through unchanged (old-school gateway behaviour)
 		if !sameQuery(rec.query, c.Query) {
 			return fail("query changed from %q to %q", c.Query, rec.query)
 		}
-		return kit.Result{Classes: append(classes, "passthrough")}
+		switch c.Kind {
+		case "subdomain":
+			// The content is named by the Host (<root>.<ns>.<known gateway hostname>, port optional, wildcard
+			// keys included), the URL path is only the remainder: where the gateway does subdomains for this
+			// namespace the host has to be mapped back; forwarding the raw path names no content.
+			if c.UseSubdomains && pathAllowed(c.Paths, c.NS) {
+				return fail("subdomain host was not mapped back to a content path: next handler saw the raw path %q instead of /%s/%s/%s", rec.path, c.NS, c.Root, c.Rem)
+			}
+			classes = append(classes, "passthrough:subdomains-not-served")
+		case "dnslink-host":
+			// Legitimate only if there is nothing to map: the path is a gateway path of this known hostname
+			// (equal to, or below, one of its Paths), or DNSLink is off for the host (the entry of a known
+			// hostname overrides the global setting) / the host has no record.
+			mainKnown := keyMatches(c.GwKey, host)
+			switch {
+			case mainKnown:
+				// (practically unreachable) the DNSLink host happens to be the subdomain gateway's hostname too
+			case siteKnown && !siteCovered && !c.Site.NoDNSLink && names[c.Root]:
+				return fail("path %q is outside Paths %v of the known hostname and the host has a DNSLink record, yet next handler saw the raw path instead of /ipns/%s%s", rec.path, c.Site.Paths, c.Root, origPath)
+			case !siteKnown && !c.GlobalNoDNSLink && names[c.Root]:
+				return fail("DNSLink host with a record was not mapped: next handler saw the raw path %q instead of /ipns/%s%s", rec.path, c.Root, origPath)
+			}
+			if siteCovered {
+				classes = append(classes, "passthrough:site-gateway-path")
+			}
+		}
+		return kit.Result{Classes: append(classes, "passthrough", "passthrough:"+c.Kind)}
 	}
 	parts := strings.SplitN(rec.path, "/", 4)
 	if len(parts) < 3 || parts[0] != "" {
@@ -801,7 +850,7 @@ func run(c Case) kit.Result {
 
 var spec = kit.Spec[Case]{
 	Prop: "C32", Name: "main",
-	Rule:  "gateway.NewHostnameHandler with a recording next handler and a mock backend holding 0-3 DNSLink names; public gateway (plain, with port, wildcard) x UseSubdomains x InlineDNSLink x NoDNSLink x Paths; request = path (/ipfs|/ipns + CIDv0/v1 in 8 bases and 6 codecs, peer IDs in legacy/CIDv1/dag-pb forms, DNS names incl. inlined labels), subdomain Host, or DNSLink Host (also listed in PublicGateways itself: exact, exact:port or wildcard key x Paths x NoDNSLink), Host with or without an explicit port, with remainder (percent-escapes, '?', '#', unicode), raw query (0-5 parameters: unsorted and repeated keys, keys without '=', empty parameters, %20 and '+', upper/lower-case and malformed percent escapes, sub-delims, literal ';'), client-side fragment, X-Forwarded-Proto/Host; redirects are followed (<=4) by re-injecting Location; the path reaching next must have the same namespace and multihash / DNSLink name, remainder and byte-identical raw query (also in every Location), the fragment must survive, every Location host label <= 63; non-trivial = at least one redirect was followed, or a DNSLink Host with a record was mapped to /ipns/<name>/...",
+	Rule:  "gateway.NewHostnameHandler with a recording next handler and a mock backend holding 0-3 DNSLink names; public gateway (plain, with port, wildcard) x UseSubdomains x InlineDNSLink x NoDNSLink x Paths; request = path (/ipfs|/ipns + CIDv0/v1 in 8 bases and 6 codecs, peer IDs in legacy/CIDv1/dag-pb forms, DNS names incl. inlined labels), subdomain Host, or DNSLink Host (also listed in PublicGateways itself: exact, exact:port or wildcard key x Paths x NoDNSLink), Host with or without an explicit port, with remainder (percent-escapes, '?', '#', unicode; on a DNSLink Host also a first segment that merely starts with a gateway path name: /ipfs-docs, /ipfs.html, /ipnsfoo), raw query (0-5 parameters: unsorted and repeated keys, keys without '=', empty parameters, %20 and '+', upper/lower-case and malformed percent escapes, sub-delims, literal ';'), client-side fragment, X-Forwarded-Proto/Host; redirects are followed (<=4) by re-injecting Location; the path reaching next must have the same namespace and multihash / DNSLink name, remainder and byte-identical raw query (also in every Location), the fragment must survive, every Location host label <= 63; a request forwarded with its raw path is accepted only for a path request, a gateway path (equal to or below one of Paths) of a known hostname, or a Host with no usable DNSLink - never for a subdomain Host or for site content of a DNSLink Host with a record; non-trivial = at least one redirect was followed, or a DNSLink Host with a record was mapped to /ipns/<name>/...",
 	Quick: 6000, Thorough: 50000,
 	Gen: gen, Run: run,
 }
